@@ -433,3 +433,112 @@ impl WsPeer {
 
 #[allow(unused)]
 fn _assert(_: ConnectionGuard, _: Extensions) {}
+
+// ------------------------------------------------------------------------------------------------------------------
+/// A hand-rolled WebSocket peer over an in-process pipe: control over what `soketto`'s client hides - fragments, control frames
+/// between them, half-closing the connection.  Client frames are masked with the all-zero key (legal, and the payload stays
+/// readable in a dump).
+pub struct RawWs {
+	pub io: tokio::io::DuplexStream,
+	buf: Vec<u8>,
+}
+
+impl RawWs {
+	/// upgrade request through `svc`; Err(status) when the server answers anything but 101
+	pub async fn connect<S, B>(svc: S, stop: StopHandle, pipe: usize) -> Result<RawWs, u16>
+	where
+		S: tower::Service<http::Request<hyper::body::Incoming>, Response = http::Response<B>> + Clone + Send + 'static,
+		S::Future: Send,
+		S::Response: Send,
+		S::Error: Into<jsonrpsee_core::BoxError>,
+		B: http_body::Body<Data = Bytes> + Send + 'static,
+		B::Error: Into<jsonrpsee_core::BoxError>,
+	{
+		use tokio::io::{AsyncReadExt, AsyncWriteExt};
+		let (mut client_io, server_io) = tokio::io::duplex(pipe);
+		let stopped = stop.clone().shutdown();
+		tokio::spawn(async move {
+			let _ = serve_with_graceful_shutdown(server_io, svc, stopped).await;
+			drop(stop);
+		});
+		let req = "GET / HTTP/1.1\r\nHost: localhost\r\nConnection: Upgrade\r\nUpgrade: websocket\r\nSec-WebSocket-Version: 13\r\nSec-WebSocket-Key: dGhlIHNhbXBsZSBub25jZQ==\r\n\r\n";
+		client_io.write_all(req.as_bytes()).await.map_err(|_| 0u16)?;
+		let mut buf = vec![];
+		let mut chunk = [0u8; 1024];
+		let head_end = loop {
+			if let Some(p) = buf.windows(4).position(|w| w == b"\r\n\r\n") {
+				break p + 4;
+			}
+			match tokio::time::timeout(Duration::from_secs(5), client_io.read(&mut chunk)).await {
+				Ok(Ok(n)) if n > 0 => buf.extend_from_slice(&chunk[..n]),
+				_ => return Err(0),
+			}
+		};
+		let status: u16 = String::from_utf8_lossy(&buf[..head_end]).split_whitespace().nth(1).and_then(|s| s.parse().ok()).unwrap_or(0);
+		if status != 101 {
+			return Err(status);
+		}
+		Ok(RawWs { io: client_io, buf: buf[head_end..].to_vec() })
+	}
+
+	/// one frame: opcode 0x1 text, 0x0 continuation, 0x9 ping, 0xA pong, 0x8 close
+	pub async fn send_frame(&mut self, fin: bool, opcode: u8, payload: &[u8]) -> bool {
+		use tokio::io::AsyncWriteExt;
+		let mut f = vec![(if fin { 0x80 } else { 0 }) | opcode];
+		match payload.len() {
+			n if n < 126 => f.push(0x80 | n as u8),
+			n if n < 65536 => {
+				f.push(0x80 | 126);
+				f.extend_from_slice(&(n as u16).to_be_bytes());
+			}
+			n => {
+				f.push(0x80 | 127);
+				f.extend_from_slice(&(n as u64).to_be_bytes());
+			}
+		}
+		f.extend_from_slice(&[0, 0, 0, 0]);
+		f.extend_from_slice(payload);
+		self.io.write_all(&f).await.is_ok() && self.io.flush().await.is_ok()
+	}
+
+	/// the next frame the server sent (opcode, payload); None on end of stream or after `wait`
+	pub async fn read_frame(&mut self, wait: Duration) -> Option<(u8, Vec<u8>)> {
+		use tokio::io::AsyncReadExt;
+		let mut chunk = [0u8; 16384];
+		loop {
+			if self.buf.len() >= 2 {
+				let (l0, mut off) = ((self.buf[1] & 0x7f) as usize, 2usize);
+				let len = match l0 {
+					126 if self.buf.len() >= 4 => {
+						off = 4;
+						Some(u16::from_be_bytes([self.buf[2], self.buf[3]]) as usize)
+					}
+					127 if self.buf.len() >= 10 => {
+						off = 10;
+						Some(u64::from_be_bytes(self.buf[2..10].try_into().unwrap()) as usize)
+					}
+					126 | 127 => None,
+					n => Some(n),
+				};
+				if let Some(len) = len {
+					if self.buf.len() >= off + len {
+						let op = self.buf[0] & 0x0f;
+						let payload = self.buf[off..off + len].to_vec();
+						self.buf.drain(..off + len);
+						return Some((op, payload));
+					}
+				}
+			}
+			match tokio::time::timeout(wait, self.io.read(&mut chunk)).await {
+				Ok(Ok(n)) if n > 0 => self.buf.extend_from_slice(&chunk[..n]),
+				_ => return None,
+			}
+		}
+	}
+
+	/// the peer is done sending (FIN) but keeps the connection and may go on reading
+	pub async fn shutdown_write(&mut self) {
+		use tokio::io::AsyncWriteExt;
+		let _ = self.io.shutdown().await;
+	}
+}
